@@ -192,49 +192,43 @@ func splitStringWithDelimiter[T ~string](str T, delimiter string) T {
 // PadLeft pads string on the left side if it's shorter than length.
 // Padding characters are truncated if they exceed length.
 func PadLeft[T ~string](str T, size int, token string) T {
+	var tokenStr = token
+
 	strLen := len(str)
+	tokenLen := len(token)
 
 	if size <= strLen {
 		return T(str)
 	}
 
-	var inl1_v0 string
-	{
-		var token string = token
-		_ = token
-		var n int = size - strLen
-		_ = n
-		var tokenStr = token
-		if len(token) <= n {
-			tokenStr = strings.Repeat(token, n)
-		}
-		inl1_v0 = tokenStr[:n]
+	if tokenLen <= size-strLen {
+		tokenStr = strings.Repeat(token, size-strLen)
 	}
-	return T(inl1_v0) + T(str)
+
+	tokenStr = tokenStr[:size-strLen]
+
+	return T(tokenStr) + T(str)
 }
 
 // PadRight pads string on the right side if it's shorter than length.
 // Padding characters are truncated if they exceed length.
 func PadRight[T ~string](str T, size int, token string) T {
+	var tokenStr = token
+
 	strLen := len(str)
+	tokenLen := len(token)
 
 	if size <= strLen {
 		return T(str)
 	}
 
-	var inl2_v0 string
-	{
-		var token string = token
-		_ = token
-		var n int = size - strLen
-		_ = n
-		var tokenStr = token
-		if len(token) <= n {
-			tokenStr = strings.Repeat(token, n)
-		}
-		inl2_v0 = tokenStr[:n]
+	if tokenLen <= size-strLen {
+		tokenStr = strings.Repeat(token, size-strLen)
 	}
-	return T(str) + T(inl2_v0)
+
+	tokenStr = tokenStr[:size-strLen]
+
+	return T(str) + T(tokenStr)
 }
 
 // Pad pads string on the left and right sides if it's shorter than length.
@@ -282,7 +276,19 @@ func SplitAtIndex[T ~string](str T, index int) []T {
 
 // Wrap a string with the specified token.
 func Wrap[T ~string](str T, token string) T {
-	var s strings.Builder
+	var inl1_v0 *strBuf
+	{
+		var n int = len(str) + 2*len(token)
+		_ = n
+		sb := strBufPool.Get().(*strBuf)
+		if cap(sb.b) < n {
+			sb.b = make([]byte, 0, n)
+		}
+		sb.b = sb.b[:0]
+		inl1_v0 = sb
+	}
+	s := inl1_v0
+	defer s.Release()
 
 	s.WriteString(token)
 	s.WriteString(string(str))
@@ -303,7 +309,19 @@ func Unwrap[T ~string](str T, token string) T {
 
 // WrapAllRune is like Wrap, only that it's applied over runes instead of strings.
 func WrapAllRune[T ~string](str T, token string) T {
-	var s strings.Builder
+	var inl2_v0 *strBuf
+	{
+		var n int = len(str) * (1 + 2*len(token))
+		_ = n
+		sb := strBufPool.Get().(*strBuf)
+		if cap(sb.b) < n {
+			sb.b = make([]byte, 0, n)
+		}
+		sb.b = sb.b[:0]
+		inl2_v0 = sb
+	}
+	s := inl2_v0
+	defer s.Release()
 
 	for _, st := range str {
 		s.WriteString(token)
